@@ -119,7 +119,7 @@ def judge(events, outs):
                         paths = []
                         try:
                             if first[2] and out.get("doc"):
-                                paths = D.top_paths(D.json_paths_diff(json.loads(first[2]), json.loads(out["doc"])))
+                                paths = D.top_diff(json.loads(first[2]), json.loads(out["doc"]))
                         except Exception:  # noqa: BLE001
                             pass
                         return f"C03/{fl}/fit/doc-differs:{'+'.join(paths)}"
